@@ -76,12 +76,24 @@ impl Request {
     where
         T: Read,
     {
+        Self::from_buffered(&mut BufReader::new(stream), address)
+    }
+
+    /// Attempts to read and parse one HTTP request from the given buffered reader.
+    ///
+    /// Bytes which the reader has buffered beyond the end of this request stay in the reader, so
+    ///   the same reader must be used for every request on a connection.
+    #[cfg(not(feature = "tokio"))]
+    pub fn from_buffered<T>(reader: &mut T, address: SocketAddr) -> Result<Self, RequestError>
+    where
+        T: BufRead,
+    {
         let mut first_buf: [u8; 1] = [0; 1];
-        stream
+        reader
             .read_exact(&mut first_buf)
             .map_err(|_| RequestError::Disconnected)?;
 
-        Self::from_stream_inner(stream, address, first_buf[0])
+        Self::from_stream_inner(reader, address, first_buf[0])
     }
 
     /// Attempts to read and parse one HTTP request from the given reader.
@@ -106,12 +118,29 @@ impl Request {
         address: SocketAddr,
         timeout: Duration,
     ) -> Result<Self, RequestError> {
-        stream
+        Self::from_buffered_with_timeout(&mut BufReader::new(stream), address, timeout)
+    }
+
+    /// Attempts to read and parse one HTTP request from the given buffered stream, timing out after the timeout.
+    ///
+    /// Like `from_buffered`, this leaves any bytes beyond the end of the request in the reader.
+    #[cfg(not(feature = "tokio"))]
+    pub fn from_buffered_with_timeout<S>(
+        reader: &mut BufReader<S>,
+        address: SocketAddr,
+        timeout: Duration,
+    ) -> Result<Self, RequestError>
+    where
+        S: std::borrow::BorrowMut<Stream> + Read,
+    {
+        reader
+            .get_ref()
+            .borrow()
             .set_timeout(Some(timeout))
             .map_err(|_| RequestError::Stream)?;
 
         let mut first_buf: [u8; 1] = [0; 1];
-        stream
+        reader
             .read_exact(&mut first_buf)
             .map_err(|e| match e.kind() {
                 ErrorKind::TimedOut => RequestError::Timeout,
@@ -119,9 +148,13 @@ impl Request {
                 _ => RequestError::Disconnected,
             })?;
 
-        stream.set_timeout(None).map_err(|_| RequestError::Stream)?;
+        reader
+            .get_ref()
+            .borrow()
+            .set_timeout(None)
+            .map_err(|_| RequestError::Stream)?;
 
-        Self::from_stream_inner(stream, address, first_buf[0])
+        Self::from_stream_inner(reader, address, first_buf[0])
     }
 
     /// Get the cookies from the request.
@@ -150,14 +183,13 @@ impl Request {
     /// Attempts to read and parse one HTTP request from the given reader.
     #[cfg(not(feature = "tokio"))]
     fn from_stream_inner<T>(
-        stream: &mut T,
+        reader: &mut T,
         address: SocketAddr,
         first_byte: u8,
     ) -> Result<Self, RequestError>
     where
-        T: Read,
+        T: BufRead,
     {
-        let mut reader = BufReader::new(stream);
         let mut start_line_buf: Vec<u8> = Vec::with_capacity(256);
         reader
             .read_until(0xA, &mut start_line_buf)
